@@ -69,6 +69,7 @@ type Stats struct {
 	Extra       map[string]int    `json:"extra"`
 	Failures    []Failure         `json:"failures"`
 	Notes       []string          `json:"notes"`
+	ReplayMode  bool              `json:"replay_mode"`
 	maxSamples  int
 }
 
@@ -161,13 +162,50 @@ func (s *Stats) Fail(msg string, caseJSON []byte) {
 	s.mu.Lock()
 	defer s.mu.Unlock()
 	f := Failure{Property: s.Property, Message: msg, Case: append(json.RawMessage{}, caseJSON...)}
-	s.Failures = []Failure{f}
+	var keep []Failure
+	for _, o := range s.Failures {
+		if o.Known != "" {
+			keep = append(keep, o)
+		}
+	}
+	s.Failures = append(keep, f)
 }
 
+// HitKnown registers a failure that was classified as the listed known finding
+// id. During a search it is only counted; when a witness is replayed it is
+// reported as a failure carrying the finding id, so that the driver can print
+// the KNOWN-FINDING line.
+func (s *Stats) HitKnown(id, msg string, caseJSON []byte) {
+	s.mu.Lock()
+	defer s.mu.Unlock()
+	s.KnownHits[id]++
+	if s.ReplayMode {
+		s.Failures = append(s.Failures, Failure{Property: s.Property, Message: msg, Case: append(json.RawMessage{}, caseJSON...), Known: id})
+	}
+}
+
+// Failed reports whether a violation that is not a listed finding was registered.
 func (s *Stats) Failed() bool {
 	s.mu.Lock()
 	defer s.mu.Unlock()
-	return len(s.Failures) > 0
+	for _, f := range s.Failures {
+		if f.Known == "" {
+			return true
+		}
+	}
+	return false
+}
+
+// LastFailure returns the message of the last unlisted violation.
+func (s *Stats) LastFailure() string {
+	s.mu.Lock()
+	defer s.mu.Unlock()
+	for i := len(s.Failures) - 1; i >= 0; i-- {
+		if s.Failures[i].Known == "" {
+			return s.Failures[i].Message
+		}
+	}
+	return ""
 }
 
 // Write stores the statistics as <OutDir>/result-<name>.json.
